@@ -25,10 +25,15 @@ is unavoidable: day / days_in_month); month-end to month-end lags are compared e
 """
 import calendar
 import datetime
+import math
 import multiprocessing
 import os
+import random
 import time
+import types
 from fractions import Fraction
+
+import numpy as np
 
 import common
 from common import call, w_date, w_rat
@@ -48,6 +53,18 @@ D8_TEXT = ("add_months truncates toward zero: results before 1970-01-01 are off 
            "(inverse law fails for pre-1970 results)")
 TOL = Fraction(1, 2 ** 40)
 DRV = "drv_c12"
+# experiments only: drop the fixed quota of "lesson" cases (notes/BUILD_GUIDE.md, generator lessons of round 6)
+SKIP_LESSONS = os.environ.get("VERIF_SKIP_LESSONS") == "1"
+
+
+def isleap(y):
+    return y % 4 == 0 and (y % 100 != 0 or y % 400 == 0)
+
+
+def dim(y, m):
+    """days in month — the harness's own arithmetic: calendar.monthrange reads the mutable list calendar.mdays, which
+    lives in the same process as the implementation under test"""
+    return 29 if m == 2 and isleap(y) else (31, 28, 31, 30, 31, 30, 31, 31, 30, 31, 30, 31)[m - 1]
 
 
 def mid(d):
@@ -56,12 +73,12 @@ def mid(d):
 
 
 def is_month_end(d):
-    return d.day == calendar.monthrange(d.year, d.month)[1]
+    return d.day == dim(d.year, d.month)
 
 
 def month_end_of_id(i):
     y, m = divmod(i, 12)
-    return D(1970 + y, m + 1, calendar.monthrange(1970 + y, m + 1)[1])
+    return D(1970 + y, m + 1, dim(1970 + y, m + 1))
 
 
 def frac(s):
@@ -146,16 +163,15 @@ def known_once(ctx, case):
         ctx.known("D8", D8_TEXT, case)
 
 
-def expand_date(ctx, d, idlo, idhi, limit=6):
-    """exact (date, k) pairs behind a digest mismatch / direct spec failure"""
-    i0 = mid(d)
-    ks = list(range(max(KMIN, idlo - i0), min(KMAX, idhi - i0) + 1))
-    res = [call(du.add_months, d, k) for k in ks]
-    impl = [w_date(v) if st == "ok" else None for st, v in res]
-    out = common.Driver(DRV).run([{"op": "intShift", "items": [w_date(d) + [k] for k in ks], "impl": impl}])[0]
+def judge_shifts(ctx, rows, limit=6, compare_model=True):
+    """rows: (d, k, (status, value), extra-case-fields | None) for integer-valued offsets k.  Spec.intShiftOk evaluated
+    by the driver on the implementation's result, model compared; pre-1970 targets of non-month-ends = finding D8."""
+    impl = [w_date(v) if st == "ok" else None for _, _, (st, v), _ in rows]
+    out = common.Driver(DRV).run([{"op": "intShift", "items": [w_date(d) + [k] for d, k, _, _ in rows], "impl": impl}])[0]
     n_fail = n_known = n_dis = 0
-    for k, (st, v), im, mo, sp in zip(ks, res, impl, out["model"], out["spec"]):
-        case = {"call": "add_months(date, k)", "date": w_date(d), "k": k}
+    for (d, k, (st, v), extra), im, mo, sp in zip(rows, impl, out["model"], out["spec"]):
+        case = {"call": "add_months(date, k)", "date": w_date(d), "k": k, **(extra or {})}
+        i0 = mid(d)
         if st == "err":
             n_fail += 1
             if n_fail <= limit:
@@ -170,11 +186,18 @@ def expand_date(ctx, d, idlo, idhi, limit=6):
                     ctx.fail("add_months(d, k) is not exactly k calendar months after d / month end not kept "
                              "(expected result >= 1970-01-01, or a month end moved by an integer)", case,
                              {"impl": im, "model": mo, "expected_month": w_date(month_end_of_id(i0 + k))[:2]})
-        elif im != mo:
+        elif im != mo and compare_model:
             n_dis += 1
             if n_dis <= limit:
                 ctx.disagree("add_months(date, k)", case, mo, im)
     return n_fail, n_known, n_dis
+
+
+def expand_date(ctx, d, idlo, idhi, limit=6):
+    """exact (date, k) pairs behind a digest mismatch / direct spec failure"""
+    i0 = mid(d)
+    ks = list(range(max(KMIN, idlo - i0), min(KMAX, idhi - i0) + 1))
+    return judge_shifts(ctx, [(d, k, call(du.add_months, d, k), None) for k in ks], limit)
 
 
 def run_enum(ctx, pool, tasks, label, idlo, idhi):
@@ -212,63 +235,70 @@ def run_enum(ctx, pool, tasks, label, idlo, idhi):
 
 def pair_task(task):
     """pairs (p_ord, e_ord): law on the implementation; `model_every`-th pair (and every failing
-    one) also goes to the driver. Returns counters and problem records."""
+    one) also goes to the driver. Returns counters and problem records.
+    Lesson pairs are (p_ord, e_ord, eps, law): the lag is perturbed by the float `eps` before it is added
+    (a hair: |eps| <= 0.01 month moves the day fraction by < 1/3 day, the result is still e); `law` says whether the
+    inverse law is DEMANDED of the perturbed lag (only for |eps| <= 2^-40, the tolerance inside which this check
+    identifies float lags) or only the model comparison on the exact rational of lag + eps."""
     pairs, model_every = task
     dev_lag_months, add_months = du.dev_lag_months, du.add_months
     fo = D.fromordinal
     recs, to_model = [], []
     n = 0
-    for idx, (po, eo) in enumerate(pairs):
+    for idx, pr in enumerate(pairs):
+        po, eo = pr[0], pr[1]
+        eps, law = (pr[2], pr[3]) if len(pr) > 2 else (0.0, True)
         p, e = fo(po), fo(eo)
         n += 1
         try:
             lag = dev_lag_months(p, e)
-            r = add_months(p, lag)
+            delta = lag + eps if eps else lag
+            r = add_months(p, delta)
         except Exception as ex:  # noqa: BLE001
-            recs.append(("raise", po, eo, common.err_name(ex), None))
+            recs.append(("raise", po, eo, common.err_name(ex), None, eps))
             continue
         if r != e or idx % model_every == 0:
-            to_model.append((po, eo, lag, r))
+            to_model.append((po, eo, lag, r, delta, eps, law))
     if to_model:
-        items = [w_date(fo(po)) + w_date(fo(eo)) for po, eo, _, _ in to_model]
+        items = [w_date(fo(t[0])) + w_date(fo(t[1])) for t in to_model]
         drv = common.Driver(DRV)
         o1, o2 = drv.run([
-            {"op": "inverse", "items": items, "impl": [w_date(r) for _, _, _, r in to_model]},
-            {"op": "addMonths", "items": [w_date(fo(po)) + [w_rat(lag)] for po, _, lag, _ in to_model]}])
+            {"op": "inverse", "items": items, "impl": [w_date(t[3]) for t in to_model]},
+            {"op": "addMonths", "items": [w_date(fo(t[0])) + [w_rat(t[4])] for t in to_model]}])
         retry = []
-        for (po, eo, lag, r), mlag, mres, sp, mres2 in zip(to_model, o1["lag"], o1["model"], o1["spec"], o2["model"]):
+        for (po, eo, lag, r, delta, eps, law), mlag, mres, sp, mres2 in zip(to_model, o1["lag"], o1["model"], o1["spec"], o2["model"]):
             wr = w_date(r)
             ml = Fraction(mlag)
             p, e = fo(po), fo(eo)
-            if not sp:
-                recs.append(("law", po, eo, wr, {"lag": lag, "model_lag": mlag, "model_on_impl_lag": mres2}))
+            if not sp and law:
+                recs.append(("law", po, eo, wr, {"lag": lag, "model_lag": mlag, "model_on_impl_lag": mres2}, eps))
             if eo >= ORD_1970 and mres != w_date(e):
-                recs.append(("model-law", po, eo, mres, mlag))
+                recs.append(("model-law", po, eo, mres, mlag, eps))
             # e >= 1970: the model fed with the implementation's own float lag must give the same date.
             # e < 1970 (domain of D8): truncation makes the exact model discontinuous at integer lags, where
             # float rounding decides the side; there the implementation must match the model on the float lag
             # or on the exact lag.
             if mres2 != wr and (eo >= ORD_1970 or mres != wr):
                 if eo < ORD_1970:
-                    retry.append((po, eo, lag, wr, mres2))
+                    retry.append((po, eo, delta, wr, mres2, eps))
                 else:
-                    recs.append(("dis-add", po, eo, wr, {"lag": w_rat(lag), "model_on_impl_lag": mres2}))
+                    recs.append(("dis-add", po, eo, wr, {"lag": w_rat(delta), "model_on_impl_lag": mres2}, eps))
             if is_month_end(p) and is_month_end(e):
                 if Fraction(lag) != ml:
-                    recs.append(("lag-int", po, eo, w_rat(lag), mlag))
+                    recs.append(("lag-int", po, eo, w_rat(lag), mlag, eps))
             elif abs(Fraction(lag) - ml) > TOL * max(1, abs(ml)):
-                recs.append(("dis-lag", po, eo, w_rat(lag), mlag))
+                recs.append(("dis-lag", po, eo, w_rat(lag), mlag, eps))
         if retry:
             # e < 1970 only: the day can sit on a rounding tie of the (wrong) month the truncation selects; the
             # implementation must then agree with the model on a lag within 2^-36 of its own float lag
-            eps = Fraction(1, 2 ** 36)
-            items = [w_date(fo(po)) + [w_rat(Fraction(lag) + s * eps)] for po, _, lag, _, _ in retry for s in (-1, 1)]
+            eps36 = Fraction(1, 2 ** 36)
+            items = [w_date(fo(po)) + [w_rat(Fraction(lag) + s * eps36)] for po, _, lag, _, _, _ in retry for s in (-1, 1)]
             o3 = common.Driver(DRV).run([{"op": "addMonths", "items": items}])[0]["model"]
-            for i, (po, eo, lag, wr, mres2) in enumerate(retry):
+            for i, (po, eo, lag, wr, mres2, eps) in enumerate(retry):
                 if wr not in (o3[2 * i], o3[2 * i + 1]):
-                    recs.append(("dis-add", po, eo, wr, {"lag": w_rat(lag), "model_on_impl_lag": mres2}))
+                    recs.append(("dis-add", po, eo, wr, {"lag": w_rat(lag), "model_on_impl_lag": mres2}, eps))
                 else:
-                    recs.append(("tie-pre1970", po, eo, wr, None))
+                    recs.append(("tie-pre1970", po, eo, wr, None, eps))
     return n, len(to_model), recs
 
 
@@ -279,9 +309,12 @@ def feed_pairs(ctx, label, outs, limit=6):
     ctx.count(f"pairs/{label}/also_through_model", sum(o[1] for o in outs))
     seen = {}
     for _, _, recs in outs:
-        for kind, po, eo, a, b in recs:
+        for kind, po, eo, a, b, eps in recs:
             p, e = D.fromordinal(po), D.fromordinal(eo)
             case = {"call": "add_months(p, dev_lag_months(p, e))", "p": w_date(p), "e": w_date(e)}
+            if eps:
+                case["call"] = "add_months(p, dev_lag_months(p, e) + eps)"
+                case["eps"] = repr(eps)
             seen[kind] = seen.get(kind, 0) + 1
             if kind == "law" and eo < ORD_1970:
                 ctx.count(f"pairs/{label}/D8_hits")
@@ -338,7 +371,7 @@ def gen_pairs(rng, n, lo, hi, lo_id, hi_id):
             def edge():
                 y = 1970 + rng.randrange(lo_id, hi_id + 1) // 12
                 return rng.choice([D(y, 2, 27), D(y, 2, 28), D(y, 3, 1), D(y, 1, 1), D(y, 12, 31), D(y, 12, 30),
-                                   D(y, 1, 31), D(y, 2, calendar.monthrange(y, 2)[1])]).toordinal()
+                                   D(y, 1, 31), D(y, 2, dim(y, 2))]).toordinal()
             p, e = edge(), edge()
         out.append((p, e))
     return out
@@ -388,8 +421,58 @@ RES_UNITS = ["month", "months", "Month", "MONTHS", "quarter", "quarters", "Quart
              "calendar days", "biweekly", "half-year", "per quarter", "3-monthly"]
 
 
-def stream_devlag(ctx, rng, n):
+def stream_devlag(ctx, rng, n, lessons=()):
+    """random cases, then the lesson cases (dicts of lesson_devlag_cases) through the same calls and verdicts"""
     items, impl, meta = [], [], []
+
+    def ask(target, unit, route):
+        """one dev_lag question.  target = a Cell (routes cell*, record*) or (pe, ev) (routes fn*)"""
+        if route == "cell":
+            return call(target.dev_lag, unit)
+        if route == "cell-kw":
+            return call(target.dev_lag, unit=unit)
+        if route == "cell-default":
+            return call(target.dev_lag)
+        if route == "record":
+            st, v = call(target.to_record, unit)
+            return (st, v["dev_lag"]) if st == "ok" else (st, v)
+        if route == "record-default":                      # to_record's own default spelling is "month"
+            st, v = call(target.to_record)
+            return (st, v["dev_lag"]) if st == "ok" else (st, v)
+        if route == "fn":
+            return call(du.calculate_dev_lag, target[0], target[1], unit)
+        if route == "fn-kw":
+            return call(du.calculate_dev_lag, period_end=target[0], evaluation_date=target[1], unit=unit)
+        if route == "fn-default":
+            return call(du.calculate_dev_lag, target[0], target[1])
+        raise common.Infra(f"unknown route {route}")
+
+    def one(ped, evd, unit, target, route, sample=None, tag=None):
+        st, v = ask(target, unit, route)
+        if tag is not None:
+            # lesson cases: the same question a second time must give the identical answer
+            st2, v2 = ask(target, unit, route)
+            if (st, v) != (st2, v2) or (st == "ok" and type(v) is not type(v2)):
+                ctx.fail("the same dev_lag call twice in a row gave two different answers",
+                         {"pe": w_date(ped), "ev": w_date(evd), "unit": unit, "route": route},
+                         {"first": repr(v), "second": repr(v2)})
+            ctx.count(f"lesson/devLag/{tag}")
+            ctx.count(f"lesson/devLag/route={route}")
+        if st == "ok":
+            if isinstance(v, datetime.timedelta):
+                kind = "timedelta"
+                wv = w_rat(Fraction(v.days) + Fraction(v.seconds, 86400) + Fraction(v.microseconds, 86400 * 10 ** 6))
+            else:
+                kind = type(v).__name__
+                wv = w_rat(v)
+        else:
+            kind, wv = v, None
+        items.append(w_date(ped) + w_date(evd) + [unit])
+        impl.append(wv)
+        meta.append((route, kind, unit))
+        ctx.case(digest=f"devlag/{ped.toordinal()}/{evd.toordinal()}/{unit}" + (f"/{route}/{tag}" if tag else ""), sample=sample)
+        ctx.count(f"devLag/unit={unit!r}")
+
     for i in range(n):
         u = rng.random()
         lo = ORD_1900 if u < 0.3 else ORD_1970
@@ -408,26 +491,16 @@ def stream_devlag(ctx, rng, n):
                 ctx.fail("Cell(period_start <= period_end, period_start <= evaluation_date) refused",
                          {"ps": w_date(psd), "pe": w_date(ped), "ev": w_date(evd)}, c)
                 continue
-            st, v = call(c.dev_lag, unit)
+            target, route = c, "cell"
         else:
-            st, v = call(du.calculate_dev_lag, ped, evd, unit)
-        if st == "ok":
-            if isinstance(v, datetime.timedelta):
-                kind = "timedelta"
-                wv = w_rat(Fraction(v.days) + Fraction(v.seconds, 86400) + Fraction(v.microseconds, 86400 * 10 ** 6))
-            else:
-                kind = type(v).__name__
-                wv = w_rat(v)
-        else:
-            kind, wv = v, None
-        items.append(w_date(ped) + w_date(evd) + [unit])
-        impl.append(wv)
-        meta.append((via_cell, kind, unit))
-        ctx.case(digest=f"devlag/{pe}/{ev}/{unit}", sample={"op": "dev_lag", "pe": w_date(ped), "ev": w_date(evd), "unit": unit} if i < 1 else None)
-        ctx.count(f"devLag/unit={unit!r}")
+            target, route = (ped, evd), "fn"
+        one(ped, evd, unit, target, route,
+            sample={"op": "dev_lag", "pe": w_date(ped), "ev": w_date(evd), "unit": unit} if i < 1 else None)
+    for lc in lessons:
+        one(lc["pe"], lc["ev"], lc["unit"], lc["target"], lc["route"], tag=lc["tag"])
     out = common.Driver(DRV).run([{"op": "devLag", "items": items, "impl": impl}])[0]
-    for it, wv, (via_cell, kind, unit), mo, sp in zip(items, impl, meta, out["model"], out["spec"]):
-        case = {"call": "Cell.dev_lag(unit)" if via_cell else "calculate_dev_lag(pe, ev, unit)",
+    for it, wv, (route, kind, unit), mo, sp in zip(items, impl, meta, out["model"], out["spec"]):
+        case = {"call": {"cell": "Cell.dev_lag(unit)", "fn": "calculate_dev_lag(pe, ev, unit)"}.get(route, route),
                 "pe": it[0:3], "ev": it[3:6], "unit": unit}
         if mo is None or wv is None:
             if (mo is None) != (wv is None) or (wv is None and kind != "ValueError"):
@@ -533,11 +606,13 @@ def stream_sentinel(ctx, rng, n):
             ctx.disagree("add_months(pe, inf)", case, mback, back)
 
 
-def stream_ids(ctx, rng, n):
+def stream_ids(ctx, rng, n, lesson_dates=(), lesson_ids=()):
     drv = common.Driver(DRV)
     dates = [D.fromordinal(rand_date(rng, ORD_1900, ORD_2100)) for _ in range(n)]
     dates += [month_end_of_id(i) for i in range(PRE_IDLO, IDHI + 1, 7)]
     dates += [D(y, m, 1) for y in (1900, 1969, 1970, 2000, 2100) for m in (1, 2, 12)]
+    dates += list(lesson_dates)
+    ctx.count("lesson/ids/dates", len(lesson_dates))
     items, impl = [], []
     for d in dates:
         st, i = call(du.month_to_id, d)
@@ -573,6 +648,27 @@ def stream_ids(ctx, rng, n):
                          {"date": w_date(r), "back": back[1]})
             ctx.evaluations += 1
     ctx.count("idToMonth/ids", len(ids) * 2)
+    # lesson cases: (id object, flag object, keyword?) — ids as numpy integers, flags as truthy / falsy non-bools,
+    # `beginning` omitted or by keyword; same op, same Spec (the wire carries int(id), bool(flag))
+    for tag, i, flag, how in lesson_ids:
+        if how == "omit":
+            st, r = call(du.id_to_month, i)
+        elif how == "kw":
+            st, r = call(du.id_to_month, id=i, beginning=flag)
+        else:
+            st, r = call(du.id_to_month, i, flag)
+        if call(du.id_to_month, i, flag) != (st, r) and how != "omit":
+            ctx.fail("the same id_to_month call twice gave two different answers", {"id": int(i), "beginning": repr(flag)})
+        back = call(du.month_to_id, r) if st == "ok" else ("err", None)
+        items.append([int(i), bool(flag)])
+        impl.append(w_date(r) if st == "ok" else None)
+        if st == "ok" and back != ("ok", int(i)):
+            ctx.fail("month_to_id(id_to_month(id, beginning)) != id", {"id": int(i), "beginning": repr(flag)},
+                     {"date": w_date(r), "back": back[1]})
+        elif st != "ok":
+            ctx.fail("id_to_month raised on an integer id", {"id": int(i), "beginning": repr(flag), "how": how}, r)
+        ctx.case(digest=f"lesson/idToMonth/{int(i)}/{flag!r}/{type(i).__name__}/{how}", sample=None)
+        ctx.count(f"lesson/ids/{tag}")
     out = drv.run([{"op": "idToMonth", "items": items, "impl": impl}])[0]
     for it, im, mo, sp in zip(items, impl, out["model"], out["spec"]):
         case = {"call": "id_to_month(id, beginning)", "id": it[0], "beginning": it[1]}
@@ -591,7 +687,7 @@ WEEK_KIND = ["week", "weeks", "WEEK", "biweekly"]
 
 def month_edge_days(y, m):
     """27..last day and 1, 2 of a month: the neighbourhood of month ends (incl. 28/29 February)"""
-    last = calendar.monthrange(y, m)[1]
+    last = dim(y, m)
     return [D(y, m, dd) for dd in (1, 2, 27, 28, 29, 30, 31) if dd <= last]
 
 
@@ -607,7 +703,7 @@ def resolution_cases(ctx, rng, n):
         q = rng.choice([0, 1, 1, 2, 3, 4, 6, 12, 13, 24, 37, 120, rng.randrange(0, 200)])
         yield "random", d, q, rng.choice(RES_UNITS), rng.random() < 0.5
     for y in range(1970, 2101):
-        for d in [D(y, 2, 28)] + ([D(y, 2, 29)] if calendar.isleap(y) else []):
+        for d in [D(y, 2, 28)] + ([D(y, 2, 29)] if isleap(y) else []):
             for units in RES_UNITS:
                 for q in (1, rng.choice([2, 3, 5, 12, 13, 24]), rng.randrange(1, 60)):
                     for neg in (False, True):
@@ -627,11 +723,18 @@ def resolution_cases(ctx, rng, n):
                     yield lab, d, q, rng.choice(kind), neg
 
 
-def stream_resolution(ctx, rng, n):
+def stream_resolution(ctx, rng, n, lessons=()):
     items, impl, meta = [], [], []
     first = True
-    for label, d, q, units, neg in resolution_cases(ctx, rng, n):
-        st, std = call(du.standardize_resolution, (q, units))
+    for label, d, q, units, neg, *var in list(resolution_cases(ctx, rng, n)) + list(lessons):
+        # var (lesson cases only): how the arguments are TYPED / PASSED; the wire carries (int q, units, bool negative)
+        var = var[0] if var else {}
+        qo = {"float": float, "np.int64": np.int64, "np.float64": np.float64, "bool": bool}.get(var.get("q"), int)(q)
+        resolution = [qo, units] if var.get("list") else (qo, units)
+        st, std = call(du.standardize_resolution, resolution)
+        if var and list(resolution) != [qo, units]:
+            ctx.fail("standardize_resolution changed its INPUT in place", {"resolution": [q, units], "container": type(resolution).__name__},
+                     {"after": repr(resolution)})
         res, same = None, None
         if st == "ok":
             sq, su = std
@@ -640,7 +743,26 @@ def stream_resolution(ctx, rng, n):
             tgt = mid(d) + (-span if neg else span)
             if not (PRE_IDLO <= tgt <= IDHI):
                 continue
-            s2, r = call(du.resolution_delta, d, std, neg)
+            negs = var.get("neg", "pos")
+            if negs == "omit":                                # negative is False: default argument
+                delta_call = lambda: call(du.resolution_delta, d, std)                      # noqa: E731
+            elif negs == "kw":
+                delta_call = lambda: call(du.resolution_delta, date=d, resolution=std, negative=neg)  # noqa: E731
+            elif negs == "int":
+                delta_call = lambda: call(du.resolution_delta, d, std, int(neg))            # noqa: E731
+            else:
+                delta_call = lambda: call(du.resolution_delta, d, std, neg)                 # noqa: E731
+            if var.get("list"):
+                std = list(std)                               # a caller-owned list: must come back unchanged
+                std_before = list(std)
+            s2, r = delta_call()
+            if var.get("list") and std != std_before:
+                ctx.fail("resolution_delta changed its INPUT resolution in place", {"d": w_date(d), "resolution": [q, units],
+                         "negative": neg}, {"before": repr(std_before), "after": repr(std)})
+                std = std_before
+            if label.startswith("lesson/") and delta_call() != (s2, r):
+                ctx.fail("the same resolution_delta call twice in a row gave two different answers",
+                         {"d": w_date(d), "resolution": [q, units], "negative": neg}, None)
             if s2 == "ok":
                 res = w_date(r)
                 if su == "month":
@@ -653,10 +775,12 @@ def stream_resolution(ctx, rng, n):
         items.append(w_date(d) + [q, units, neg])
         impl.append(res)
         meta.append((st, std, same, mid(d)))
-        ctx.case(digest=f"res/{d.toordinal()}/{q}/{units}/{neg}",
+        ctx.case(digest=f"res/{d.toordinal()}/{q}/{units}/{neg}" + (f"/{sorted(var.items())}" if var else ""),
                  sample={"op": "resolution_delta", "d": w_date(d), "resolution": [q, units], "negative": neg} if first else None)
         first = False
-        ctx.count(f"resolution/{label}")
+        ctx.count(f"resolution/{label}" if not label.startswith("lesson/") else label)
+        for k_, v_ in var.items():
+            ctx.count(f"lesson/resolution/arg/{k_}={v_}")
         if label == "random":
             ctx.count(f"resolution/units={units!r}")
     drv = common.Driver(DRV)
@@ -693,9 +817,632 @@ def stream_resolution(ctx, rng, n):
 
 
 # --------------------------------------------------------------------------------------
+# lesson cases (BUILD_GUIDE "Generator lessons of seeded batch 4"): a fixed quota in EVERY run, through the same
+# driver ops / Spec predicates / verdict code as the random and exhaustive cases.  Own random.Random (derived
+# from the seed), so the random streams above draw what they drew before.  VERIF_SKIP_LESSONS=1 drops them.
+# --------------------------------------------------------------------------------------
+
+SPECIAL_YEARS = (1972, 1996, 2000, 2004, 2023, 2024, 2096, 2099, 2100)      # leap / non-leap / century
+OFFSET_TYPES = [("int", int), ("float", float), ("np.int64", np.int64), ("np.float64", np.float64),
+                ("np.int32", np.int32), ("Fraction", Fraction)]
+HAIR = (2.0 ** -40, 2.0 ** -41)              # inside the tolerance 2^-40 of this check: the property is demanded
+SOFT = (1e-12, 1e-9, 1e-6, 0.01)             # isclose-sized: model comparison only
+# spellings with TWO keywords (the dispatch is an ordered substring chain: month, quarter, year, day, week) and
+# padded / mixed-case ones
+RES_UNITS_EXTRA = ["quarter-year", "yearquarter", "quarterly", "yearly", "monthly", "weekly", "daily", "day of year",
+                   "yearweek", "weekyear", "monthweek", "week of month", "quarterday", "day-quarter", "monthquarter",
+                   "quarter of months", " month ", "Months\n", "QuarterYear", "fortnight", "annual", "m", "d"]
+LAG_UNITS_EXTRA = ["daymonth", "days timedelta", "timedelta_months", " timedelta", "TimeDelta", "timedelta days",
+                   "monthly", "daily", "Days ", "m", "delta"]
+
+
+def lesson_rng(ctx, what):
+    return random.Random(f"C12/lessons/{what}/{ctx.seed}")
+
+
+def module_tables():
+    """module-level containers that exist (non-empty) when the check starts: date_utils' own and the calendar
+    tables it may lean on.  Compared again after the run: a list / tuple must keep its old elements (a list may
+    grow at the end), a dict its old items (caches may grow) — a table edited in place is state between calls."""
+    out = {}
+    for modname, mod in (("bermuda.date_utils", du), ("calendar", calendar)):
+        for name, v in vars(mod).items():
+            if name.startswith("__") or isinstance(v, types.ModuleType) or callable(v):
+                continue
+            if isinstance(v, (list, tuple)) and len(v):
+                out[f"{modname}.{name}"] = ("seq", [repr(x) for x in v])
+            elif isinstance(v, dict) and len(v):
+                out[f"{modname}.{name}"] = ("map", {repr(k): repr(x) for k, x in v.items()})
+            elif isinstance(v, (int, float, str, datetime.date)):
+                out[f"{modname}.{name}"] = ("val", repr(v))
+    out["calendar.mdays[:]"] = ("seq", [repr(x) for x in calendar.mdays])
+    out["date.max"] = ("val", repr(D.max))
+    return out
+
+
+def compare_tables(ctx, before, when):
+    after = module_tables()
+    for name, (kind, old) in before.items():
+        if name not in after:
+            ctx.disagree("module-level table disappeared " + when, {"name": name}, old, None)
+            continue
+        new = after[name][1]
+        if after[name][0] != kind:
+            bad = True
+        elif kind == "seq":
+            bad = new[:len(old)] != old
+        elif kind == "map":
+            bad = any(new.get(k) != v for k, v in old.items())
+        else:
+            bad = new != old
+        if bad:
+            ctx.disagree("module-level table / constant changed between calls " + when + " (the model is a pure function)",
+                         {"name": name}, old, new)
+    ctx.count("lesson/state/module-tables-compared", len(before))
+
+
+def stream_lesson_state(ctx, before):
+    """leap / non-leap probes of every function, the module tables compared after each group: a table that is
+    patched for leap years and not restored is visible right after a call that lands in a leap February"""
+    probes = {"leap": (D(2024, 1, 31), D(2024, 2, 10), D(2024, 2, 29)), "non-leap": (D(2023, 1, 31), D(2023, 2, 10), D(2023, 2, 28)),
+              "century": (D(2100, 1, 31), D(2100, 2, 10), D(2100, 2, 28)), "leap-again": (D(2000, 1, 31), D(2000, 2, 10), D(2000, 2, 29))}
+    for name, (jan, feb, last) in probes.items():
+        got = [call(du.add_months, jan, 1), call(du.add_months, jan, 0.5), call(du.add_months, feb, 12.25),
+               call(du.resolution_delta, jan, (1, "month")), call(du.resolution_delta, last, (1, "month"), True),
+               call(du.id_to_month, du.month_to_id(feb), False),
+               call(du.add_months, jan, du.dev_lag_months(jan, last)), call(du.calculate_dev_lag, jan, last, "days")]
+        want = [("ok", last), None, None, ("ok", last), ("ok", jan), ("ok", last), ("ok", last), ("ok", (last - jan).days)]
+        for g, w, what in zip(got, want, ("add_months(Jan 31, 1)", "", "", "resolution_delta(Jan 31, 1 month)",
+                                          "resolution_delta(Feb end, 1 month, negative)", "id_to_month(id of Feb, False)",
+                                          "add_months(Jan 31, dev_lag_months(Jan 31, Feb end))", "calculate_dev_lag days")):
+            if w is not None and g != w:
+                ctx.fail("state probe: " + what + " is not the end of February / the calendar difference",
+                         {"year": jan.year, "probe": name}, {"impl": repr(g[1]), "expected": repr(w[1])})
+        ctx.evaluations += len(got)
+        ctx.count(f"lesson/state/probe={name}")
+        compare_tables(ctx, before, f"(after the {name} probes)")
+
+
+def lesson_enum_dates(lrng):
+    """start dates for the digest enumeration (every integer k in [-600, 600] in range, model digest vs
+    implementation digest + calendar statement): every day of February in leap / non-leap / century years, the
+    27th-31st, 1st, 15th, 16th of every month of a leap, a non-leap and two drawn years, round() tie days"""
+    years = list(SPECIAL_YEARS) + [lrng.randrange(1970, 2101) for _ in range(2)]
+    out = {}
+    for y in years:
+        for dd in range(1, dim(y, 2) + 1):
+            out[D(y, 2, dd)] = "feb-every-day"
+    for y in (2000, 2100, 2023, 2024, lrng.randrange(1970, 2101)):
+        for m in range(1, 13):
+            for dd in (1, 15, 16, 27, 28, 29, 30, 31):
+                if dd <= dim(y, m):
+                    out.setdefault(D(y, m, dd), "month-edges-and-15th")
+    for y in [lrng.randrange(1970, 2101) for _ in range(6)] + [2000, 2100]:
+        for m, dd in ((4, 15), (6, 15), (9, 15), (11, 15), (2, 7), (2, 14), (2, 21)):
+            out.setdefault(D(y, m, dd), "round-tie-days")
+    out.setdefault(D(1970, 1, 1), "first/last")
+    out.setdefault(D(1970, 1, 2), "first/last")
+    out.setdefault(D(2100, 12, 30), "first/last")
+    out.setdefault(D(2100, 12, 31), "first/last")
+    return out
+
+
+def start_kind(d):
+    if d.month == 2:
+        leap = isleap(d.year)
+        if d.day == 29:
+            return "feb29"
+        if d.day == 28:
+            return "feb28-leap(not-month-end)" if leap else "feb28-nonleap(month-end)"
+        return "feb-leap" if leap else "feb-nonleap"
+    if is_month_end(d):
+        return f"month-end-{d.day}"
+    return f"day-{d.day}" if d.day >= 28 else ("day-15" if d.day == 15 else "mid-month")
+
+
+def lesson_shift_cases(lrng):
+    """(tag, date, k, type index): integer-valued offsets, typed int / float / numpy / Fraction / bool.
+    Twins (same month and day, other year) are adjacent and share offset and type: state between calls."""
+    out = []
+    ti = 0
+
+    def add(tag, d, k, t=None, lo=PRE_IDLO, hi=IDHI):
+        nonlocal ti
+        tgt = mid(d) + k
+        if not (lo <= tgt <= hi):
+            return
+        if tgt < 0 and not is_month_end(d):
+            return                                   # finding D8: expected result before 1970 from a non-month-end
+        if t is None:
+            t = ti
+            ti += 1
+        out.append((tag, d, k, t % len(OFFSET_TYPES)))
+
+    # whole years / whole quarters / one month from the 28th..31st (and the days before a month end), every year
+    for y in range(1970, 2101):
+        ds = [D(y, 2, 28)] + ([D(y, 2, 29)] if isleap(y) else []) + \
+             [D(y, 1, 29), D(y, 1, 30), D(y, 1, 31), D(y, 3, 30), D(y, 4, 30), D(y, 8, 31), D(y, 12, 30), D(y, 12, 31)]
+        for d in ds:
+            for k in (12, -12, 24, -24, 36, -36, 48, -48):
+                add("whole-year", d, k)
+            for k in (3, -3, 6, -6, 9, -9):
+                add("whole-quarter", d, k)
+            for k in (1, -1, 11, -11, 13, -13):
+                add("month-and-wrap", d, k)
+    # offsets beyond the enumerated [-600, 600]
+    for y in (1970, 1971, 1972, 1980, 2000, 2020, 2090, 2096, 2099, 2100):
+        ds = [D(y, 1, 1), D(y, 1, 31), D(y, 2, 14), D(y, 2, 28), D(y, 6, 15), D(y, 6, 30), D(y, 12, 30), D(y, 12, 31)]
+        if isleap(y):
+            ds.append(D(y, 2, 29))
+        for d in ds:
+            for a in (601, 612, 720, 1000, 1188, 1200, 1201, 1212, 1500, 1560, 1571):
+                add("large-offset(|k|>600)", d, a)
+                add("large-offset(|k|>600)", d, -a)
+    # from 1900-1969: month ends anywhere (exact in every year), other days only into 1970 and later (finding D8)
+    for y in (1900, 1904, 1936, 1964, 1965, 1968, 1969):
+        for d in (D(y, 1, 31), D(y, 2, dim(y, 2)), D(y, 11, 30), D(y, 12, 31)):
+            for k in (0, 1, -1, 2, 12, -12, 24, 36, -36, 48, 1200, -mid(d), -mid(d) + 1, -mid(d) + 13, 1571 - mid(d)):
+                add("pre-1970-month-end", d, k)
+        for d in (D(y, 2, 14), D(y, 2, 27), D(y, 2, 28), D(y, 12, 30), D(y, 7, 15)):
+            if is_month_end(d):
+                continue
+            for k in (-mid(d), -mid(d) + 1, -mid(d) + 2, -mid(d) + 12, -mid(d) + 14, -mid(d) + 361):
+                add("pre-1970-start-into-1970+", d, k)
+    # December <-> January (table index 0 / -1 / 12) and the ends of the supported range
+    for y in (1970, 1971, 1999, 2000, 2023, 2024, 2099, 2100):
+        for d in (D(y, 12, 1), D(y, 12, 15), D(y, 12, 30), D(y, 12, 31), D(y, 1, 1), D(y, 1, 15), D(y, 1, 30), D(y, 1, 31)):
+            for k in (1, -1, 2, -2, 11, -11, 12, -12, 13, -13):
+                add("dec-jan-wrap", d, k)
+    for k in list(range(0, 1572, 131)) + [1571, 1570, 1]:
+        add("first/last-date", D(1970, 1, 1), k)
+        add("first/last-date", D(2100, 12, 31), -k)
+        add("first/last-date", D(1970, 1, 31), k)
+        add("first/last-date", D(2100, 12, 1), -k)
+    # beyond the stated range (the theorems hold for every date from 1970 on; month ends in every year)
+    for y in (2101, 2200, 2400, 3000, 5000, 9000, 9998):
+        for d in (D(y, 1, 31), D(y, 2, dim(y, 2)), D(y, 2, 15), D(y, 6, 15), D(y, 12, 31)):
+            for k in (0, 1, -1, 12, -12, 120, 1200, -1200):
+                add("beyond-2100", d, k, lo=0, hi=12 * (9999 - 1970) + 10)
+    for y in (1, 4, 100, 400, 1582, 1600, 1700, 1800, 1899):
+        for d in (D(y, 1, 31), D(y, 2, dim(y, 2)), D(y, 12, 31)):
+            for k in (0, 1, 12, 13, 48, 1200, 12000, -mid(d) + 5):
+                add("before-1900-month-end", d, k, lo=mid(D(1, 1, 1)), hi=IDHI)
+    # falsy and boolean offsets (type index 100+ = exact objects)
+    for d in (D(2024, 2, 29), D(2023, 2, 28), D(2024, 2, 28), D(2001, 6, 15), D(1970, 1, 1), D(2100, 12, 31), D(1969, 12, 31)):
+        for t in (100, 101, 102, 103, 104, 105, 106):
+            out.append(("falsy-offset", d, 0, t))
+        if mid(d) + 1 <= IDHI:
+            out.append(("bool-offset", d, 1, 107))
+    # twins: same month and day, other year (leap / non-leap), consecutive, same offset object
+    twins = [(D(2024, 2, 28), D(2023, 2, 28)), (D(2000, 2, 28), D(2100, 2, 28)), (D(2024, 1, 31), D(2023, 1, 31)),
+             (D(2024, 3, 31), D(2023, 3, 31)), (D(2096, 2, 15), D(2097, 2, 15)), (D(2023, 12, 31), D(2022, 12, 31)),
+             (D(2024, 1, 30), D(2023, 1, 30)), (D(2000, 3, 30), D(1900, 3, 31)), (D(2004, 2, 29), D(2000, 2, 29))]
+    for a, b in twins:
+        for k in (0, 1, -1, 2, 12, -12, 24, 48, 11, -11):
+            t = lrng.randrange(len(OFFSET_TYPES))
+            for d in (a, b, a):
+                add("twin-same-month-day-other-year", d, k, t)
+    return out
+
+
+FALSY_OFFSETS = {100: ("int 0", 0), 101: ("float 0.0", 0.0), 102: ("float -0.0", -0.0), 103: ("False", False),
+                 104: ("np.int64(0)", np.int64(0)), 105: ("np.float64(0.0)", np.float64(0.0)), 106: ("Fraction(0)", Fraction(0)),
+                 107: ("True", True)}
+
+
+def offset_object(k, t):
+    if t >= 100:
+        return FALSY_OFFSETS[t]
+    name, f = OFFSET_TYPES[t]
+    return name, f(k)
+
+
+def stream_lesson_shifts(ctx, lrng):
+    cases = lesson_shift_cases(lrng)
+    objs = [offset_object(k, t) for _, _, k, t in cases]
+    first = [call(du.add_months, d, o) for (_, d, _, _), (_, o) in zip(cases, objs)]
+    # the same calls again, in reverse order: identical answers (state between calls)
+    second = [call(du.add_months, d, o) for (_, d, _, _), (_, o) in reversed(list(zip(cases, objs)))][::-1]
+    rows = []
+    for (tag, d, k, _), (tname, o), r1, r2 in zip(cases, objs, first, second):
+        if r1 != r2:
+            ctx.fail("the same add_months call twice in one process gave two different answers",
+                     {"date": w_date(d), "k": k, "offset": f"{tname}"}, {"first": repr(r1[1]), "second": repr(r2[1])})
+        rows.append((d, k, r1, {"offset_type": tname, "lesson": tag}))
+        ctx.case(digest=f"lesson/shift/{d.toordinal()}/{k}/{tname}", sample=None)
+        ctx.count(f"lesson/shift/{tag}")
+        ctx.count(f"lesson/shift/offset-type={tname.split('(')[0].split(' ')[0]}")
+        ctx.count(f"lesson/shift/start={start_kind(d)}")
+    judge_shifts(ctx, rows, limit=12)
+    return [(d, r[1]) for (_, d, _, _), r in zip(cases, first) if r[0] == "ok"]
+
+
+def lesson_float_cases(lrng):
+    """(tag, date, float offset, k | None, type name).  k = the integer the offset is a hair (<= 2^-40) away from: then
+    Spec.intShiftOk is demanded of the result; None: model comparison (exact rational of the float) only."""
+    out = []
+    starts = []
+    for y in (1970, 2000, 2023, 2024, 2099, lrng.randrange(1971, 2099)):
+        starts += [D(y, 1, 31), D(y, 2, dim(y, 2)), D(y, 4, 30), D(y, 12, 31),            # month ends
+                   D(y, 4, 15), D(y, 6, 15), D(y, 9, 15), D(y, 11, 15), D(y, 2, 14),       # fraction exactly 1/2 (or 14/29)
+                   D(y, 2, 7), D(y, 2, 21), D(y, 1, 1), D(y, 3, 10), D(y, 7, 30), D(y, 10, 16), D(y, 2, 28), D(y, 5, 29)]
+    starts += [D(1970, 1, 1), D(2100, 12, 31), D(2100, 12, 15), D(1969, 12, 31), D(1968, 2, 29), D(1969, 7, 15)]
+    ks = (0, 1, -1, 2, 3, 12, -12, 13, 25, -37, 128, 256, 512, -512, 600, 1024, -1024)
+
+    def inside(d, x):
+        lo = Fraction(d.day, dim(d.year, d.month)) + mid(d) + Fraction(x)
+        return 1 <= lo <= IDHI                      # expected result in 1970-02 .. 2100-12 (never the D8 domain)
+
+    i = 0
+    for d in starts:
+        for k in ks:
+            for h in HAIR:
+                for sgn in (1, -1):
+                    x = k + sgn * h
+                    if inside(d, x) and inside(d, k):
+                        out.append((f"hair=+-2^{int(math.log2(h))}", d, x, k, "np.float64" if i % 3 == 0 else "float"))
+                        i += 1
+        for k in (0, 1, -1, 12, -12, 25, 256, -512):
+            for h in SOFT:
+                for sgn in (1, -1):
+                    x = k + sgn * h
+                    if inside(d, x):
+                        out.append((f"isclose-sized=+-{h:g}", d, x, None, "float"))
+        # dyadic offsets (exact in floats): halves, quarters, eighths, sixteenths, both signs
+        for x in (0.5, -0.5, 0.25, -0.25, 1.75, -2.25, 11.5, -11.5, 12.5, 100.125, -100.0625, 0.0625, 599.5, -599.5,
+                  lrng.randrange(-9600, 9600) / 16, lrng.randrange(-9600, 9600) / 8):
+            if inside(d, x):
+                out.append(("dyadic", d, x, None, "np.float64" if i % 2 else "float"))
+                i += 1
+        # non-dyadic offsets
+        for x in (0.1 + 0.2, 0.1, -0.1, 0.7, -0.7, 1.1, 2.675, math.pi, -math.e, 1e-9, -1e-9, 12.000000001, 1 / 7, 5 / 7 + 24,
+                  lrng.uniform(-600, 600), lrng.uniform(-30, 30), lrng.uniform(-1, 1)):
+            if inside(d, x):
+                out.append(("non-dyadic", d, x, None, "float"))
+        # the sum lands on (or a rounding error next to) a whole number: k + the rest of the start's month
+        n_ = dim(d.year, d.month)
+        for k in (0, 1, -1, 12, -13, 255, -511):
+            x = k + (n_ - d.day) / n_
+            if inside(d, x):
+                out.append(("lands-on-whole", d, x, None, "float"))
+            x = k + 1 - d.day / n_
+            if inside(d, x):
+                out.append(("lands-on-whole", d, x, None, "float"))
+    return out
+
+
+def float_ambiguous(d, x):
+    """True when the exact sum puts day = frac * days_in_month ON or within 2^-30 of a round() tie while the start's
+    day fraction is not a dyadic rational (3/31, 10/30 ...): the implementation's double arithmetic cannot hit the tie
+    exactly and lands a rounding error above or below it, the exact model rounds half to even — both days are equally
+    near (add_months(1970-01-01, 11.5): implementation 1970-12-17, exact model 1970-12-16).  With a dyadic day
+    fraction (15/30, 7/28, 14/28, 21/28, month ends) and a dyadic offset every float operation is exact: compared."""
+    fd = Fraction(d.day, dim(d.year, d.month))
+    if fd.denominator & (fd.denominator - 1) == 0:
+        return False
+    tot = fd + mid(d) + Fraction(x)
+    i = math.floor(tot)
+    f = tot - i
+    if f == 0:
+        return False
+    y, m = divmod(i, 12)
+    t = f * dim(1970 + y, m + 1)
+    return abs(t - math.floor(t) - Fraction(1, 2)) < Fraction(1, 2 ** 30)
+
+
+def stream_lesson_floats(ctx, lrng):
+    cases = lesson_float_cases(lrng)
+    rows, hair_rows, back = [], [], []
+    for tag, d, x, k, tname in cases:
+        xo = np.float64(x) if tname == "np.float64" else x
+        r1 = call(du.add_months, d, xo)
+        r2 = call(du.add_months, d, xo)
+        case = {"call": "add_months(date, float offset)", "date": w_date(d), "offset": repr(x), "offset_type": tname, "lesson": tag}
+        if r1 != r2:
+            ctx.fail("the same add_months call twice in one process gave two different answers", case,
+                     {"first": repr(r1[1]), "second": repr(r2[1])})
+        ctx.case(digest=f"lesson/float/{d.toordinal()}/{x!r}", sample=None)
+        ctx.count(f"lesson/float/{tag}")
+        ctx.count(f"lesson/float/start={start_kind(d)}")
+        if r1[0] != "ok":
+            ctx.fail("add_months raised on an in-range date and a finite float offset", case, {"raised": r1[1]})
+            continue
+        if k is not None:
+            hair_rows.append((d, k, r1, {"offset": repr(x), "offset_type": tname, "lesson": tag,
+                                         "call": "add_months(date, k +- hair)"}))
+        if float_ambiguous(d, x):
+            ctx.count("lesson/float/next-to-a-round-tie(model-not-compared)")
+        else:
+            rows.append((case, d, x, r1[1]))
+        back.append((d, r1[1]))
+    out = common.Driver(DRV).run([{"op": "addMonths", "items": [w_date(d) + [w_rat(x)] for _, d, x, _ in rows]}])[0]["model"]
+    n_dis = 0
+    for (case, d, x, r), mo in zip(rows, out):
+        if w_date(r) != mo:
+            n_dis += 1
+            if n_dis <= 12:
+                ctx.disagree("add_months(date, float offset) vs the model on the exact rational of the offset", case, mo, w_date(r))
+    if hair_rows:
+        # Spec only: the model was compared above on the exact offset (k -+ hair from a tie day is another day than k)
+        judge_shifts(ctx, hair_rows, limit=12, compare_model=False)
+    return back
+
+
+def lesson_pair_cases(lrng, derived):
+    """(p, e, eps, law) ordinals.  `derived`: (start, result) pairs of the lesson add_months calls — the inverse law
+    is demanded of every date the implementation itself returned."""
+    out = []
+    tags = {}
+
+    def add(tag, p, e, eps=0.0, law=True):
+        if not (ORD_1900 <= p.toordinal() <= ORD_2100 and ORD_1900 <= e.toordinal() <= ORD_2100):
+            return
+        out.append((p.toordinal(), e.toordinal(), eps, law))
+        tags[tag] = tags.get(tag, 0) + 1
+
+    years = list(SPECIAL_YEARS) + [lrng.randrange(1970, 2101) for _ in range(2)]
+    feb = []
+    for y in years:
+        feb += [D(y, 2, dd) for dd in range(1, dim(y, 2) + 1)]
+        feb += [D(y, 1, 28), D(y, 1, 29), D(y, 1, 30), D(y, 1, 31), D(y, 3, 1), D(y, 3, 2), D(y, 3, 30), D(y, 3, 31)]
+    for p in feb:
+        for e in lrng.sample(feb, 10):
+            add("february:start/target/pivot", p, e)
+        add("february:start/target/pivot", p, p)
+        add("first/last-date", p, D(1970, 1, 1))
+        add("first/last-date", D(1970, 1, 1), p)
+        add("first/last-date", p, D(2100, 12, 31))
+        add("first/last-date", D(2100, 12, 31), p)
+        for y2 in lrng.sample(years, 3):
+            # same month and day in another year: lag = whole years (exactly, when both are month ends)
+            dd = min(p.day, dim(y2, p.month))
+            add("whole-year-lag", p, D(y2, p.month, dd))
+            add("whole-year-lag", p, D(y2, p.month, dim(y2, p.month)))
+    add("first/last-date", D(1970, 1, 1), D(2100, 12, 31))
+    add("first/last-date", D(2100, 12, 31), D(1970, 1, 1))
+    # December <-> January
+    for y in (1970, 1999, 2000, 2023, 2024, 2099):
+        a = [D(y, 12, 1), D(y, 12, 15), D(y, 12, 30), D(y, 12, 31)]
+        b = [D(y + 1, 1, 1), D(y + 1, 1, 15), D(y + 1, 1, 30), D(y + 1, 1, 31)]
+        for p in a:
+            for e in b:
+                add("dec-jan-wrap", p, e)
+                add("dec-jan-wrap", e, p)
+    # lags a hair (about 0.001) away from a whole number through the day fractions: 30/31 vs 29/30, 28/29 vs 27/28 ...
+    near = []
+    for y in (2023, 2024, lrng.randrange(1971, 2100)):
+        days = [D(y, m, dd) for m in range(1, 13) for dd in range(1, dim(y, m) + 1)]
+        fr = [(Fraction(d.day, dim(y, d.month)), d) for d in days]
+        for fa, a in fr:
+            if a.day < 27:
+                continue
+            for fb, b in fr:
+                if b.day >= 26 and 0 < abs(fa - fb) < Fraction(1, 500):
+                    near.append((a, b))
+    for a, b in lrng.sample(near, min(400, len(near))):
+        add("lag-near-whole-through-day-fractions", a, b)
+        add("lag-near-whole-through-day-fractions", b, a)
+    # a hair around the exact lag
+    pool = []
+    for y in (1971, 2000, 2024, 2051, 2100, lrng.randrange(1972, 2099)):
+        pool += [D(y, 1, 31), D(y, 2, dim(y, 2)), D(y, 4, 30), D(y, 12, 31), D(y, 4, 15), D(y, 2, 14), D(y, 7, 1),
+                 D(y, 3, 21), D(y, 5, 31), D(y, 10, 5), D(y, 2, 28), D(y, 8, 16)]
+    for p in pool:
+        for e in lrng.sample(pool, 14):
+            for h in HAIR:
+                add("lag+-hair(2^-40,2^-41)", p, e, h, True)
+                add("lag+-hair(2^-40,2^-41)", p, e, -h, True)
+            h = lrng.choice(SOFT)
+            add("lag+-isclose-sized(model only)", p, e, h, False)
+            add("lag+-isclose-sized(model only)", p, e, -h, False)
+    # starts in 1900-1969 with targets from 1970 on (outside finding D8), February of 1900 / 1904 / 1968
+    for y in (1900, 1904, 1936, 1967, 1968, 1969):
+        for p in (D(y, 2, 1), D(y, 2, 14), D(y, 2, 28), D(y, 2, dim(y, 2)), D(y, 12, 31), D(y, 12, 30), D(y, 3, 1)):
+            for e in (D(1970, 1, 1), D(1970, 1, 31), D(1970, 2, 28), D(1972, 2, 29), D(2000, 2, 29), D(2100, 2, 28), D(2100, 12, 31),
+                      D.fromordinal(lrng.randrange(ORD_1970, ORD_2100 + 1))):
+                add("pre-1970-start,target>=1970", p, e)
+    for d, r in derived:
+        add("law-on-add_months-results", d, r)
+    return out, tags
+
+
+def lesson_devlag_cases(ctx, lrng):
+    """dicts for stream_devlag: every unit spelling on SHARED cell objects (one cell, every unit in a row), mid-month
+    evaluation dates x non-month-end period ends, February twins, default / keyword unit, to_record, cells derived
+    from a cell whose lags were read before (replace / select / derive_fields), same period_start with other ends"""
+    out = []
+    units = LAG_UNITS + LAG_UNITS_EXTRA
+
+    def cell(ps, pe, ev):
+        st, c = call(Cell, ps, pe, ev, {"x": 1, "y": 2.5})
+        if st != "ok":
+            ctx.fail("Cell(period_start <= period_end, period_start <= evaluation_date) refused",
+                     {"ps": w_date(ps), "pe": w_date(pe), "ev": w_date(ev)}, c)
+            return None
+        return c
+
+    def add(tag, pe, ev, unit, target, route):
+        out.append({"tag": tag, "pe": pe, "ev": ev, "unit": unit, "target": target, "route": route})
+
+    scen = []
+    for y in (2024, 2023, 2000, 2100, 1972, lrng.randrange(1970, 2100)):
+        leap = isleap(y)
+        scen += [
+            ("mid-month-ev,non-month-end-pe", D(y, 1, 1), D(y, 1, 20), D(y, 3, 15)),
+            ("mid-month-ev,month-end-pe", D(y, 1, 1), D(y, 1, 31), D(y, 4, 15)),
+            ("month-end-ev,non-month-end-pe", D(y, 1, 1), D(y, 2, 14), D(y, 6, 30)),
+            ("february-pe", D(y, 2, 1), D(y, 2, 28), D(min(y + 1, 2100), 2, 28)),
+            ("february-pe", D(y, 2, 1), D(y, 2, dim(y, 2)), D(min(y + 4, 2100), 2, dim(min(y + 4, 2100), 2))),
+            ("february-ev", D(y - 1, 12, 1), D(y - 1, 12, 31), D(y, 2, 29 if leap else 28)),
+            ("february-ev", D(y, 1, 1), D(y, 1, 30), D(y, 2, 28)),
+            ("zero-lag(pe==ev)", D(y, 2, 1), D(y, 2, 15), D(y, 2, 15)),
+            ("zero-lag(pe==ev)", D(y, 12, 1), D(y, 12, 31), D(y, 12, 31)),
+            ("ev-before-pe", D(y, 1, 1), D(y, 12, 31), D(y, 3, 31)),
+            ("dec-jan-wrap", D(y - 1, 12, 1), D(y - 1, 12, 31), D(y, 1, 31)),
+            ("dec-jan-wrap", D(y - 1, 12, 1), D(y - 1, 12, 15), D(y, 1, 15)),
+        ]
+    scen += [("first/last-date", D(1970, 1, 1), D(1970, 1, 1), D(2100, 12, 31)),
+             ("first/last-date", D(1970, 1, 1), D(1970, 1, 31), D(2100, 12, 31)),
+             ("pre-1970", D(1900, 2, 1), D(1900, 2, 28), D(1904, 2, 29)),
+             ("pre-1970", D(1968, 2, 1), D(1968, 2, 29), D(1969, 2, 28)),
+             ("pre-1970", D(1968, 2, 1), D(1968, 2, 28), D(1972, 2, 28)),
+             ("far-years", D(1600, 2, 1), D(1600, 2, 29), D(2400, 2, 29)),
+             ("far-years", D(2399, 12, 1), D(2399, 12, 31), D(9999, 12, 30))]
+    # lesson 2: one period_start, several period ends (month stub / quarter / half-year / year), one evaluation date
+    for y in (2024, 2099):
+        for pe in (D(y, 1, 31), D(y, 3, 31), D(y, 6, 30), D(y, 12, 31), D(y, 2, 15)):
+            scen.append(("same-period_start,other-period_end", D(y, 1, 1), pe, D(y + 1, 2, 28)))
+    for j, (tag, ps, pe, ev) in enumerate(scen):
+        c = cell(ps, pe, ev)
+        if c is None:
+            continue
+        for i, unit in enumerate(units):
+            # the SAME cell object answers every unit in a row; every third question through the function
+            route = ("cell", "fn", "cell-kw", "cell", "record", "fn-kw")[(i + j) % 6]
+            add(tag, pe, ev, unit, (pe, ev) if route.startswith("fn") else c, route)
+        add("default-unit", pe, ev, "months", c, "cell-default")
+        add("default-unit", pe, ev, "months", (pe, ev), "fn-default")
+        add("default-unit", pe, ev, "month", c, "record-default")
+        # twins: the same question on a cell one year / four years later (same months and days where they exist)
+        for dy in (1, 4):
+            try:
+                ps2, pe2, ev2 = ps.replace(year=ps.year + dy), pe.replace(year=pe.year + dy), ev.replace(year=ev.year + dy)
+            except ValueError:
+                continue
+            if ev2.year > 2100 and tag != "far-years":
+                continue
+            c2 = cell(ps2, pe2, ev2)
+            if c2 is not None:
+                for unit in ("months", "days", "timedelta"):
+                    add("twin-same-month-day-other-year", pe2, ev2, unit, c2, "cell")
+                    add("twin-same-month-day-other-year", pe, ev, unit, c, "cell")
+        # lesson 7: derived cells of a cell whose lags were all read
+        for how in ("replace-ev", "replace-pe", "select", "derive_fields"):
+            if how == "replace-ev":
+                step = lrng.choice([1, 14, 15, 31, 366])
+                if (D.max - ev).days <= step:
+                    continue
+                ev3 = ev + datetime.timedelta(days=step)
+                if ev3.year > 2100 and tag != "far-years":
+                    continue
+                st, c3 = call(c.replace, evaluation_date=ev3)
+                pe3 = pe
+            elif how == "replace-pe":
+                pe3 = ps + datetime.timedelta(days=lrng.choice([0, 13, 14, 27, 28]))
+                st, c3 = call(c.replace, period_end=pe3)
+                ev3 = ev
+            elif how == "select":
+                st, c3 = call(c.select, ["x"])
+                pe3, ev3 = pe, ev
+            else:
+                st, c3 = call(c.derive_fields, z=lambda cc: cc["x"] + 1)
+                pe3, ev3 = pe, ev
+            if st != "ok":
+                ctx.fail("Cell.replace / select / derive_fields refused a valid change", {"how": how, "ps": w_date(ps),
+                         "pe": w_date(pe3), "ev": w_date(ev3)}, c3)
+                continue
+            for unit in ("months", "Day", "timedelta", "monthday"):
+                add(f"derived-cell({how})", pe3, ev3, unit, c3, "cell")
+    return out
+
+
+def lesson_resolution_cases(lrng):
+    """(label, date, q, units, negative, how-passed) for stream_resolution"""
+    L = "lesson/resolution/"
+    dates = [D(2024, 2, 29), D(2024, 2, 28), D(2023, 2, 28), D(2100, 2, 28), D(2000, 2, 29), D(2023, 1, 30), D(2023, 1, 31),
+             D(2023, 4, 30), D(2023, 4, 15), D(2023, 12, 31), D(2023, 12, 30), D(2024, 1, 29)]
+    for units in RES_UNITS + RES_UNITS_EXTRA:
+        for d in dates:
+            for q in (1, 4):
+                for neg in (False, True):
+                    yield L + ("every-spelling/month-end-start" if is_month_end(d) else "every-spelling/non-month-end-start"), d, q, units, neg
+    # zero and negative quantities (negative=True on a negative quantity moves FORWARD), every unit kind
+    for units in ("month", "quarters", "YEAR", "day", "weeks", "monthly", "quarter-year"):
+        for d in (D(2024, 2, 29), D(2023, 2, 28), D(2023, 5, 31), D(2023, 5, 17), D(2000, 1, 1), D(2099, 12, 31)):
+            for q in (0, -1, -2, -3, -12, -13):
+                for neg in (False, True):
+                    yield L + ("zero-quantity" if q == 0 else "negative-quantity"), d, q, units, neg
+    # typed quantities, list instead of tuple, negative omitted / keyword / int
+    i = 0
+    for units in ("month", "months", "quarter", "year", "day", "days", "week"):
+        monthy = units in ("month", "months", "quarter", "year")
+        for d in (D(2024, 2, 29), D(2023, 2, 28), D(2023, 7, 31), D(2023, 7, 16)):
+            for q in (1, 3, 12):
+                for qt in ["int", "float", "bool"] + (["np.int64", "np.float64"] if monthy else []):
+                    if qt == "bool" and q != 1:
+                        continue
+                    neg = i % 2 == 1
+                    negs = ("pos", "kw", "int")[i % 3] if neg else ("omit", "kw", "int", "pos")[i % 4]
+                    i += 1
+                    yield L + "typed-and-passed", d, q, units, neg, {"q": qt, "neg": negs, "list": i % 5 == 0}
+    # large quantities
+    for q, units in ((1200, "month"), (601, "months"), (400, "quarter"), (201, "quarters"), (100, "year"), (130, "years"),
+                     (51, "year"), (1000, "day"), (36525, "days"), (47000, "day"), (520, "week"), (5218, "weeks")):
+        for d in (D(1970, 1, 1), D(1970, 1, 31), D(1972, 2, 29), D(2000, 2, 29), D(2100, 12, 31), D(2100, 2, 28), D(2099, 6, 15)):
+            for neg in (False, True):
+                yield L + "large-quantity", d, q, units, neg
+    # month ends of 1900-1969 (exact in every year), February of 1900 / 1904 / 1968
+    for d in (D(1900, 2, 28), D(1904, 2, 29), D(1968, 2, 29), D(1969, 2, 28), D(1969, 12, 31), D(1900, 1, 31)):
+        for q, units in ((1, "month"), (1, "quarter"), (1, "year"), (4, "years"), (12, "months"), (17, "quarters"), (1, "day"), (52, "weeks")):
+            for neg in (False, True):
+                yield L + "pre-1970-month-end", d, q, units, neg
+    # twins, consecutive: leap / non-leap same month and day
+    for a, b in ((D(2024, 2, 28), D(2023, 2, 28)), (D(2024, 1, 31), D(2023, 1, 31)), (D(2024, 3, 31), D(2023, 3, 31)),
+                 (D(2000, 2, 28), D(2100, 2, 28)), (D(2096, 3, 1), D(2100, 3, 1))):
+        for q, units in ((1, "month"), (1, "year"), (4, "quarter"), (1, "week"), (30, "day"), (4, "years")):
+            for neg in (False, True):
+                for d in (a, b, a):
+                    yield L + "twin-same-month-day-other-year", d, q, units, neg
+
+
+def lesson_id_cases(lrng):
+    ids = [0, -1, 1, 11, 12, -12, -13, 13, IDHI, IDHI + 1, PRE_IDLO, PRE_IDLO - 1, 361, 362, 1561, 1562,
+           lrng.randrange(PRE_IDLO, IDHI), 12 * (9998 - 1970) + 11, mid(D(1, 1, 1)), mid(D(1600, 2, 1)), mid(D(2400, 2, 1))]
+    out = []
+    for i in ids:
+        for flag in (True, False, 1, 0, None, "", "last", 0.0, np.bool_(True), np.bool_(False), [], [0]):
+            out.append((f"flag={type(flag).__name__}:{'truthy' if flag else 'falsy'}", i, flag, "pos"))
+        out.append(("beginning-omitted", i, True, "omit"))
+        out.append(("keyword-arguments", i, True, "kw"))
+        out.append(("keyword-arguments", i, False, "kw"))
+        out.append(("numpy-id", np.int64(i), True, "pos"))
+        out.append(("numpy-id", np.int32(i), False, "pos"))
+    return out
+
+
+def lesson_id_dates(lrng):
+    out = []
+    for y in list(SPECIAL_YEARS) + [1900, 1904, 1968, 1969, 1970, 1, 1600, 2400, 9998]:
+        out += [D(y, 2, dd) for dd in (1, 14, 28, dim(y, 2))] + [D(y, 1, 1), D(y, 1, 31), D(y, 12, 1), D(y, 12, 31)]
+    return out
+
+
+def run_lessons_parallel(ctx, lrng, derived):
+    """lesson start dates through the digest enumeration, lesson pairs through the inverse-law stream"""
+    procs = min(16, os.cpu_count() or 4)
+    mp = multiprocessing.get_context("fork")
+    with mp.Pool(procs) as pool:
+        dates = lesson_enum_dates(lrng)
+        for tag in sorted(set(dates.values())):
+            ctx.count(f"lesson/enum/{tag}", sum(1 for v in dates.values() if v == tag))
+        for d in dates:
+            ctx.count(f"lesson/enum/start={start_kind(d)}")
+        ords = sorted(d.toordinal() for d in dates)
+        run_enum(ctx, pool, [("dates", c) for c in chunks(ords, 12)], "lesson dates 1970-2100", IDLO, IDHI)
+        ctx.nontrivial.update(f"enum/{o}" for o in ords)
+        pairs, tags = lesson_pair_cases(lrng, derived)
+        for t, n_ in tags.items():
+            ctx.count(f"lesson/pairs/{t}", n_)
+        ctx.nontrivial.update(f"pair/{p}/{e}/{eps!r}" for p, e, eps, _ in pairs if p != e)
+        outs = pool.map(pair_task, [(c, 1) for c in chunks(pairs, 1500)], chunksize=1)
+        feed_pairs(ctx, "lesson", outs, limit=12)
+
+
+# --------------------------------------------------------------------------------------
 
 def correspondence(ctx):
     rng = ctx.rng
+    tables_before = module_tables()
     procs = min(16, os.cpu_count() or 4)
     mp = multiprocessing.get_context("fork")
     with mp.Pool(procs) as pool:
@@ -764,11 +1511,25 @@ def correspondence(ctx):
             feed_pairs(ctx, "3-year windows 1900-2100 (sampled p x every e)", outs)
             ctx.notes.append(f"windows: {len(tasks)} sliding 3-year windows, {sum(o[0] for o in outs)} pairs")
 
-    # ---- (4) unit dispatch, ids, resolutions -------------------------------------------
-    stream_devlag(ctx, rng, 20_000 if ctx.thorough else 4_000)
+    # ---- (4) unit dispatch, ids, resolutions (+ their lesson cases, after the random ones) ----------
+    lessons = not SKIP_LESSONS
+    ctx.count("lesson/enabled", 1 if lessons else 0)
+    stream_devlag(ctx, rng, 20_000 if ctx.thorough else 4_000,
+                  lessons=lesson_devlag_cases(ctx, lesson_rng(ctx, "devlag")) if lessons else ())
     stream_sentinel(ctx, rng, 6_000 if ctx.thorough else 1_500)
-    stream_ids(ctx, rng, 20_000 if ctx.thorough else 3_000)
-    stream_resolution(ctx, rng, 30_000 if ctx.thorough else 6_000)
+    lr = lesson_rng(ctx, "ids")
+    stream_ids(ctx, rng, 20_000 if ctx.thorough else 3_000,
+               lesson_dates=lesson_id_dates(lr) if lessons else (), lesson_ids=lesson_id_cases(lr) if lessons else ())
+    stream_resolution(ctx, rng, 30_000 if ctx.thorough else 6_000,
+                      lessons=lesson_resolution_cases(lesson_rng(ctx, "resolution")) if lessons else ())
+
+    # ---- (5) lesson cases of add_months / the inverse law ----------------------------------------
+    if lessons:
+        stream_lesson_state(ctx, tables_before)
+        derived = stream_lesson_shifts(ctx, lesson_rng(ctx, "shifts"))
+        derived += stream_lesson_floats(ctx, lesson_rng(ctx, "floats"))
+        run_lessons_parallel(ctx, lesson_rng(ctx, "parallel"), derived)
+        compare_tables(ctx, tables_before, "during the run")
 
 
 if __name__ == "__main__":
@@ -785,7 +1546,22 @@ if __name__ == "__main__":
              "around it (27-31, 1-2) x month/quarter/year/day-or-week spelling x both signs (thorough: every date). thorough: "
              "EVERY date 1970-01-01..2100-12-31 x every k, every date 1900-1969 x every k, 1M + 400k pairs, sampled p x "
              "every e in all sliding 3-year windows 1900-2100. distinct = distinct (date) / (p,e) / (input tuple); "
-             "evaluations counts single add_months / dev_lag / id calls",
+             "evaluations counts single add_months / dev_lag / id calls. LESSON cases (fixed quota in every run, own "
+             "random.Random, histogram keys lesson/*, VERIF_SKIP_LESSONS=1 drops them; same driver ops, Spec predicates and "
+             "verdict code): digest enumeration from every day of February of leap / non-leap / century years, month edges "
+             "and the 15th/16th of every month of four years, round() tie days; integer-valued offsets typed int / float / "
+             "numpy / Fraction / bool from the 28th-31st of every year (whole years, whole quarters, +-1/11/13), |k| > 600 up "
+             "to 1571, 1900-1969 starts outside finding D8, years 1-1899 (month ends) and 2101-9998, December/January, falsy "
+             "offsets, leap/non-leap twins, every call twice; float offsets k +- 2^-40/2^-41 (Spec.intShiftOk) and "
+             "+-1e-12..0.01, dyadic, non-dyadic, landing on a whole number (model on the exact rational; not compared "
+             "next to a round() tie reached through a non-dyadic day fraction); inverse law on February start/target/pivot "
+             "pairs, whole-year lags, lags 0.001 from whole, lag +- hair, and on every date the lesson add_months calls "
+             "returned; dev_lag: every unit spelling (incl. two-keyword ones) on ONE shared cell per scenario, default / "
+             "keyword unit, to_record, cells derived by replace / select / derive_fields from a cell read before, same "
+             "period_start with several ends, twins; resolution_delta: every spelling x sign x month-end / non-month-end "
+             "start, zero / negative / float / bool / numpy quantities, list argument (input unchanged), negative omitted / "
+             "keyword / int, large quantities, twins; id_to_month with truthy / falsy non-bool flags, numpy ids; leap / "
+             "non-leap probes with the module-level tables of bermuda.date_utils and calendar compared before / after",
         assumptions=["dates within 1900-01-01..2100-12-31 (the theorems hold for all dates from 1970 on; the tie between "
                      "floating point code and exact model is enumeration on the stated range)",
                      "the date.max sentinel (evaluation_date == date.max -> inf / timedelta.max before the unit dispatch; "
@@ -793,7 +1569,12 @@ if __name__ == "__main__":
                      "(Model/DateUtilsExt.lean; theorems calculateDevLagExt_fin/_max, addMonthsExt_devLagExt_max) and "
                      "compared in the `sentinel` stream; NaN and -inf deltas are outside the property",
                      "float month lags are compared with the exact model lag with tolerance 2^-40*max(1,|lag|); "
-                     "dates, day lags and month-end lags are compared exactly"],
-        trusted=["CPython datetime.date ordinal arithmetic and calendar.monthrange as modelled (Model/Basic.lean dim, ordinal)",
+                     "dates, day lags and month-end lags are compared exactly",
+                     "non-integer offsets: the exact model and the double arithmetic of add_months pick different (equally "
+                     "near) days when frac*days_in_month is a round() tie reached through a non-dyadic day fraction "
+                     "(add_months(1970-01-01, 11.5): 1970-12-17, exact model 1970-12-16); such inputs are counted "
+                     "(lesson/float/next-to-a-round-tie) and only the inverse law is demanded of their result"],
+        trusted=["CPython datetime.date ordinal arithmetic and calendar.monthrange as modelled (Model/Basic.lean dim, ordinal); "
+                 "the harness computes month lengths itself (calendar.mdays is mutable and shared with the implementation)",
                  "digest (count, sum ord, k-weighted sum ord) per start date distinguishes result rows"],
     )
